@@ -7,7 +7,7 @@ import torch
 import pytorch_lightning as pl
 import torchphysics as tp
 from torchphysics.problem.spaces import Points
-from .common import main, watched
+from .common import main, watched, pick
 
 logging.getLogger("pytorch_lightning").setLevel(logging.ERROR)
 logging.getLogger("lightning").setLevel(logging.ERROR)
@@ -197,8 +197,8 @@ def fit(cfg, steps, workdir, callbacks_extra=(), ckpt_path=None, log=None, setti
 
 
 def run_one(s):
-    cfg = dict(s["cfg"], named=(s["tid"] % 2 == 1), late_weights=(s["tid"] % 3 == 0), eval_between=(s["tid"] % 4 != 3),
-               new_lam=(s["tid"] % 2 == 1), sanity=(s["tid"] % 3 != 1))
+    cfg = dict(s["cfg"], named=(pick(s["tid"], 2, 1) == 1), late_weights=(pick(s["tid"], 3, 2) == 0), eval_between=(pick(s["tid"], 4, 3) != 3),
+               new_lam=(pick(s["tid"], 2, 4) == 1), sanity=(pick(s["tid"], 3, 5) != 1))
     wd = tempfile.mkdtemp(prefix="c07-", dir=os.environ.get("VERIF_TMP", None))
     try:
         r = watched(lambda: fit(cfg, cfg["N"], wd), 90)
